@@ -228,8 +228,12 @@ func (c20) Case(c *core.Ctx) {
 		s, es = x2jw.ByteDocToJson(doc, cast)
 		cmp("x2j-wrapper.ByteDocToJson", eqErr(es, eb) && s == string(b), core.D{"observed": s, "expected": string(b)})
 		s, es = x2jw.DocToJsonIndent(string(doc), cast)
-		b, eb = mc.JsonIndent("", "  ")
-		cmp("x2j-wrapper.DocToJsonIndent", eqErr(es, eb) && s == string(b), core.D{"observed": s, "expected": string(b)})
+		// "prettified": which prefix / indent strings the wrapper passes to JsonIndent is not documented - the output must be
+		// the compact encoding (same cast flag) with nothing but white space added outside strings
+		b, eb = mc.Json()
+		var cb bytes.Buffer
+		cerr := json.Compact(&cb, []byte(s))
+		cmp("x2j-wrapper.DocToJsonIndent", eqErr(es, eb) && (eb != nil || (cerr == nil && bytes.Equal(cb.Bytes(), b))), core.D{"observed": s, "expected_compact": string(b)})
 		m3, e3 := x2jw.DocToMap(string(doc), cast)
 		cmp("x2j-wrapper.DocToMap", e3 == nil && jv.Equal(m3, map[string]interface{}(mc)), nil)
 		m3, e3 = x2jw.ByteDocToMap(doc, cast)
